@@ -1281,7 +1281,8 @@ impl RaftLogManager {
                     pop_count += 1;
                 }
             } else {
-                break;
+                //this file lies wholly before the cut, the files behind it still have to be stripped
+                continue;
             }
         }
         if pop_count > 0 {
